@@ -77,6 +77,7 @@ class EditHooks(Hooks):
         self.pre = None
         self.others = None
         self.bad = set()
+        self.first = {}         # query id -> (copy of the answer, digest of the spectrum it was asked about)
 
     def before(self, it, i, ev):
         self.pre = None
@@ -118,6 +119,20 @@ class EditHooks(Hooks):
         if tag.get('reasked'):
             it.fault('dup')
             it.probe('query_repeated_after_edit')
+        if fn in ('Spectrum.bin', 'Spectrum.sample') and out.ok and isinstance(out.value, np.ndarray):
+            tgt_d = it.dig(it.resolve(ev['a'][0]))
+            again = tag.get('again')
+            if again is not None and again in self.first and self.first[again][1] == tgt_d:
+                # the caller scaled the array it was handed (flux *= qe) and asks the same question again about the same spectrum
+                it.probe('query_repeated_after_caller_write')
+                it.probe('check:repeat')
+                it.fault('caller_write')
+                ref = self.first[again][0]
+                if ref.shape != out.value.shape or not np.array_equal(ref, out.value, equal_nan=True):
+                    it.violate('C15.bin' if fn == 'Spectrum.bin' else 'C15.retain', {'call': fn, 'what': 'repeat-differs-after-caller-write'},
+                               'the same %s on the unchanged spectrum gave a different answer after the caller wrote into the array the '
+                               'first call returned' % fn, i)
+            self.first[ev['id']] = (np.array(out.value, copy=True), tgt_d)
         if self.others is not None:
             it.probe('check:bystanders')
             for k, d in self.others.items():
@@ -386,7 +401,8 @@ class SpectrumEditScenario(Scenario):
                    'scipy.integrate.simpson is trusted as the reference for Simpson totals']
     must_hit = ['refused:resample', 'refused:append', 'crop:at-sample', 'crop:between', 'pad:inside', 'pad:outside',
                 'bin:trapz/symmetric/pp', 'bin:trapz/inside/raw', 'bin:simps/symmetric/raw', 'bin:simps/inside/pp',
-                'bin_linear_exact', 'bin_power', 'nonuniform_grid', 'idem', 'query_repeated_after_edit', 'shared_buffers']
+                'bin_linear_exact', 'bin_power', 'nonuniform_grid', 'idem', 'query_repeated_after_edit', 'shared_buffers',
+                'query_repeated_after_caller_write']
     probe_names = must_hit + ['coldwarm_audit', 'refused:to', 'refused:pad', 'refused:trim', 'refused:crop']
 
     def make_fns(self):
@@ -709,6 +725,14 @@ class SpectrumEditScenario(Scenario):
                 n0 = len(events)
                 self.query(rng, K - 1, sid, m, events, counter)
                 asked[sid] += [e for e in events[n0:] if e['fn'] in ('Spectrum.integrate', 'Spectrum.bin', 'Spectrum.sample')]
+                last = events[-1]
+                if last['fn'] in ('Spectrum.bin', 'Spectrum.sample') and len(events) > n0 and rng.random() < 0.3:
+                    # fault: the caller writes into the array it was handed, then asks again
+                    events.append({'env': 'perturb', 'c': last['c'], 'target': '@' + last['id'], 'seed': rng.randrange(10 ** 6)})
+                    d = copy.deepcopy(last)
+                    d['id'] = last['id'] + 'a'
+                    d.setdefault('t', {})['again'] = last['id']
+                    events.append(d)
         return {'scenario': self.name, 'world': world, 'events': events}
 
     def prelude(self, verif_seed):
@@ -737,6 +761,9 @@ class SpectrumEditScenario(Scenario):
                                 t['linear'] = m.lin
                             events.append({'c': 0, 'fn': 'Spectrum.bin', 'a': [ref, [float(x) for x in cs]], 'id': 'q%d' % counter[0],
                                            'k': {'interp_method': method, 'ends': ends, 'preserve_power': pp, 'waveunit': m.unit}, 't': t})
+            qlast = [e for e in events if e.get('fn') == 'Spectrum.bin'][-1]
+            events.append({'env': 'perturb', 'c': 0, 'target': '@' + qlast['id'], 'seed': j})
+            events.append(dict(copy.deepcopy(qlast), id=qlast['id'] + 'a', t=dict(qlast.get('t', {}), again=qlast['id'])))
             events.append({'c': 0, 'fn': 'check.integrate', 'a': [ref], 'k': {'seed': j, 'method': 'trapz'}, 'id': 'ci'})
             # a refused resample and a refused append in the middle of an edit sequence, then keep editing
             events.append({'c': 0, 'fn': 'Spectrum.crop', 'a': [ref, w[1], w[9]], 'id': 'e1', 't': {'cut': 'at-sample'}, 'inplace': [ref]})
